@@ -227,7 +227,7 @@ def cbmc_all_inputs(rep, prop, spec, thorough):
         def one(job):
             (q, o, b), endian = job
             cmd = ["cbmc", "-DQ=%d" % q, "-DOFF=%d" % o, "-DBITS=%d" % b, "-I", os.path.join(R, "include"), harness,
-                   os.path.join(R, "src", "avtp", "Utils.c"), "--unwind", "400", "--no-standard-checks", "--trace"]
+                   os.path.join(R, "src", "avtp", "Utils.c"), "--unwind", "400", "--unwinding-assertions", "--no-standard-checks", "--trace"]
             if endian == "big":
                 cmd += ["--big-endian", "-D__BYTE_ORDER__=__ORDER_BIG_ENDIAN__"]
             r = subprocess.run(cmd, capture_output=True, text=True, timeout=600)
@@ -265,7 +265,7 @@ def cbmc_all_inputs(rep, prop, spec, thorough):
                             "note": "counterexample from CBMC's trace on the real Utils.c; the ops replay it natively (little-endian host)"})
     rep.cov["cbmc_all_inputs"] = {"shapes": len(shapes), "byte_orders": 2, "verified": n_ok, "runs": len(results),
                                   "statement": "for all buffer contents and all 64-bit values: result/stored bits = wire bits of the field, nothing else changes",
-                                  "cmd": "cbmc -DQ=q -DOFF=o -DBITS=b -I /repo/include harness/cbmc/utils_all_inputs.c /repo/src/avtp/Utils.c --unwind 400 --no-standard-checks [--big-endian -D__BYTE_ORDER__=__ORDER_BIG_ENDIAN__]"}
+                                  "cmd": "cbmc -DQ=q -DOFF=o -DBITS=b -I /repo/include harness/cbmc/utils_all_inputs.c /repo/src/avtp/Utils.c --unwind 400 --unwinding-assertions --no-standard-checks [--big-endian -D__BYTE_ORDER__=__ORDER_BIG_ENDIAN__]"}
     return len(results) - n_ok
 
 
